@@ -193,7 +193,10 @@ def run_case(spec):
                 viol.append({"key": "C08/nameplate-still-claimed", "msg": "%s closed (%s) but the server still shows nameplate %s claimed by it; machines at close(): %s" % (
                     app.name, verdict, name, states_at_close.get(app.name)), "witness": wit()})
         mb_known = app.w._boss._M._mailbox
-        if mb_known is not None:
+        refused = any(sd == side and orig == "close" for (_, sd, _, orig) in world.server_errors)
+        if mb_known is not None and refused:
+            counters["server_refused_close"] = counters.get("server_refused_close", 0) + 1
+        if mb_known is not None and not refused:
             for (mid, s, opened, mood) in msides:
                 if s == side and mid == mb_known and opened:
                     viol.append({"key": "C08/mailbox-still-open", "msg": "%s closed (%s) but its mailbox side is still open at the server; machines at close(): %s" % (
